@@ -108,6 +108,42 @@ PAIRS_T = PAIRS_Q + [
 ]
 
 
+CASE_INSENSITIVE_KEYS = ('S1', 'S2', 'S3', 'S4', 'S6', 'S7', 'S8', 'S9', 'S10', 'S12')
+
+
+def generated(tier):
+    """the C01 corpus (every balanced shape up to the line bound, all tokens symbolic) x each
+    mechanical rewrite applied at every applicable position, and all of them composed"""
+    from .. import corpus as C
+    if tier == 'quick':
+        schemas, shapes = ['S2', 'S3', 'S7'], gen.shapes(3)
+    else:
+        schemas, shapes = gen.THOROUGH, gen.shapes(3) + [s for s in gen.shapes(4) if len(s) == 4][::4]
+    us = []
+    for sid in schemas:
+        keys = sid in CASE_INSENSITIVE_KEYS
+        for sh in shapes:
+            lines, info = C.template(sh)
+            variants = [('ws', C.rw_whitespace(lines, info), []),
+                        ('blank', C.rw_blank(lines, info), []),
+                        ('case', C.rw_case(lines, info, keys), [])]
+            e = C.rw_empty(lines, info)
+            if e is not None:
+                variants.append(('empty', e, []))
+            r, distinct = C.rw_reorder(lines, info)
+            if r is not None:
+                variants.append(('reorder', r, distinct))
+            if tier != 'quick' or len(sh) <= 2:
+                c, d2 = C.compose(lines, info, keys)
+                variants.append(('all', c, d2))
+            for kind, rew, distinct in variants:
+                if tier == 'quick' and kind in ('ws', 'blank') and len(sh) == 3 and sid != 'S2':
+                    continue
+                us.append({'schema': sid, 'shape': sh, 'rewrite': kind, 'files': [['main.conf', lines]],
+                           'files2': [['main.conf', rew]], 'distinct': distinct})
+    return us
+
+
 class C15(P.TextMixin, Harness):
     prop = 'C15'
     domain = 'D'
@@ -132,20 +168,28 @@ class C15(P.TextMixin, Harness):
 
     @property
     def bounds(self):
-        return {'quick': {'pairs': len(PAIRS_Q)}, 'thorough': {'pairs': len(PAIRS_T)}}
+        return {t: {'hand_written_pairs': len(PAIRS_Q if t == 'quick' else PAIRS_T),
+                    'generated_pairs': len(generated(t)),
+                    'generated_from': 'C01 shapes (<= 3 lines; thorough: plus a quarter of the 4-line shapes) x '
+                                      'rewrites {whitespace, blank/comment lines, case, empty-section form, '
+                                      'key reordering, all composed}'}
+                for t in ('quick', 'thorough')}
 
     def budget(self, tier):
-        return 170 if tier == 'quick' else 1200
+        return 170 if tier == 'quick' else 1500
 
     def units(self, tier):
         return [{'schema': s, 'files': [['main.conf', a]], 'files2': [['main.conf', b]]}
-                for s, a, b in (PAIRS_Q if tier == 'quick' else PAIRS_T)]
+                for s, a, b in (PAIRS_Q if tier == 'quick' else PAIRS_T)] + generated(tier)
 
     def inputs(self, eng, unit):
         inp = self.text_inputs(eng, unit)
         for k, v in self.text_inputs(eng, unit, 'files2').items():
             if k not in inp:
                 inp[k] = v
+        # reordering is only claimed for lines of *different* keys
+        for a, b in unit.get('distinct', ()):
+            eng.assume(z3.Not(inp['h_' + a].lower()._eq_expr(inp['h_' + b].lower())))
         return inp
 
     def _out(self, r):
